@@ -835,7 +835,7 @@ func c06RiskOf(files []srcFile) string {
 		if c06StepRe.MatchString(f.Text) {
 			return "range-step<=0"
 		}
-		if strings.Contains(f.Text, "range(") && strings.Contains(f.Text, "4611686018427387904") {
+		if strings.Contains(f.Text, "range(") && (strings.Contains(f.Text, "4611686018427387904") || strings.Contains(f.Text, "92233720368547758")) {
 			return "range-overflow"
 		}
 	}
